@@ -40,6 +40,7 @@ type session struct {
 	maxCtr   [2]int
 	faults   int
 	refused  int
+	expSum   [2][][32]byte // digest of every payload the specification said was delivered, per endpoint
 	evals    int64
 	diverged bool
 }
@@ -183,7 +184,13 @@ func (s *session) run(states []tla.State) error {
 		}
 	}
 	if !s.diverged {
+		s.stableCheck()
+	}
+	if !s.diverged {
 		s.finalCheck(states[len(states)-1])
+	}
+	if !s.diverged {
+		s.stableCheck()
 	}
 	s.ctx.AddEval(s.evals)
 	return nil
@@ -203,4 +210,26 @@ func stateTexts(states []tla.State, upto int) []string {
 		out = append(out, string(sb))
 	}
 	return out
+}
+
+// stableCheck is the law "delivered payloads are stable": every payload an
+// endpoint handed to the application is kept (the very slice it returned) and
+// must still hold the bytes the specification said were delivered after later
+// packets and decoys of any size have been received on the same connection.
+func (s *session) stableCheck() {
+	for x := 0; x < 2; x++ {
+		if s.ev[x] == nil {
+			continue
+		}
+		s.ev[x].mu.Lock()
+		held := s.ev[x].delivered
+		s.ev[x].mu.Unlock()
+		for i := 0; i < len(held) && i < len(s.expSum[x]); i++ {
+			s.evals++
+			if sha256.Sum256(held[i]) != s.expSum[x][i] {
+				s.violation("deliver:payload-mutated", fmt.Sprintf("payload %d delivered to endpoint %s (%d bytes) was correct when delivered and has changed after later packets were received: the returned slice aliases transport state", i, epName(x), len(held[i])))
+				return
+			}
+		}
+	}
 }
